@@ -485,42 +485,55 @@ def _check_builders(repo, rep):
 
 
 def _check_round(repo, rep):
+    """round_floats interpreted on a path with symbolic numbers: every argument of every command comes out as
+    round(arg, ndigits), letters and order unchanged, on every path through the code; numeric fields of the shape too."""
+    from sa.pathsem import new_path, run_rewrite, out_cmds
+    from sa.sym import fn_atom, simplify_num
     st = repo["svg_types"]
     F = "svg_types.SVGPath.round_floats"
     rep.saw(F, "svg_types.SVGShape.round_floats")
     nd = RF.sym("nd")
-    # SVGPath.round_floats uses super(): analyse the path-data part through the syntax tree + evaluator of the loop body
-    fn = st.func("SVGPath.round_floats")
-    loops = [l for l in walk_no_nested(fn) if isinstance(l, ast.For)]
-    ok = False
-    why = "no loop re-serialising the parsed commands"
-    for l in loops:
-        if isinstance(l.iter, ast.Call) and call_name(l.iter) == "parse_svg_path":
-            calls = [c for c in ast.walk(l) if isinstance(c, ast.Call) and call_name(c).endswith("._add_cmd")]
-            for c in calls:
-                star = [a for a in c.args if isinstance(a, ast.Starred)]
-                if len(c.args) == 2 and star and isinstance(star[0].value, (ast.GeneratorExp, ast.ListComp)):
-                    g = star[0].value
-                    if unparse(g.elt) == f"round({unparse(g.generators[0].target)}, ndigits)" and not g.generators[0].ifs \
-                            and unparse(g.generators[0].iter) == "args":
-                        ok = True
-                    else:
-                        why = f"arguments re-emitted as {unparse(g.elt)} (must be round(arg, ndigits) for every arg)"
-    sup = any(isinstance(c, ast.Call) and "super()" in call_name(c) and call_name(c).endswith("round_floats") for c in ast.walk(fn))
-    guards = [n for n in walk_no_nested(fn) if isinstance(n, (ast.If, ast.IfExp)) or (isinstance(n, ast.Return) and n is not fn.body[-1])]
-    if ok and sup and not guards:
-        rep.ok("R-CASE.round", F, "every parsed argument passes through round(_, ndigits) unconditionally; dataclass floats rounded by super()", True)
+    cmds = [("M", (RF.sym("x0"), RF.sym("y0"))), ("l", (RF.sym("x1"), RF.sym("y1"))), ("C", tuple(RF.sym(f"c{i}") for i in range(6))),
+            ("a", (RF.sym("rx"), RF.sym("ry"), RF.sym("rot"), 1, 0, RF.sym("ex"), RF.sym("ey"))), ("H", (RF.sym("h"),)), ("z", ())]
+    probs = []
+    n = 0
+    for inplace in (False, True):
+        fn = method_of(repo, "svg_types", "SVGPath", "round_floats")
+
+        def setup(it):
+            from sa.pathsem import install_path_hooks
+            install_path_hooks(it)
+
+        def fresh():
+            return ([new_path(repo, cmds, opacity=RF.sym("op"), stroke_width=RF.sym("sw")), nd], {"inplace": inplace})
+
+        for o in explore(repo, fn, [], fresh_args=fresh, setup=setup, max_paths=64):
+            n += 1
+            if o.undecided:
+                raise AnalysisError(f"{F}: evaluator undecided: {o.undecided}")
+            if o.raised:
+                probs.append(f"raises {o.raised}")
+                continue
+            got = out_cmds(o.value)
+            if [c for c, _ in got] != [c for c, _ in cmds]:
+                probs.append(f"commands {[c for c, _ in got]} instead of {[c for c, _ in cmds]}")
+                continue
+            for (c, a), (_, a0) in zip(got, cmds):
+                for v, v0 in zip(a, a0):
+                    want = simplify_num(fn_atom("round", v0, nd)) if isinstance(v0, RF) else v0
+                    if repr(simplify_num(v) if isinstance(v, RF) else v) not in (repr(want), repr(simplify_num(fn_atom("round", v0, nd)))):
+                        probs.append(f"argument {v0} of {c} comes out as {v}; round({v0}, ndigits) expected on every path ({o.cond_text()[:80]})")
+            for fld, sym in (("opacity", "op"), ("stroke_width", "sw")):
+                if any((not v) and "isfloat" in repr(c) and sym in repr(c) for c, v in o.decisions):
+                    continue  # the field holds an int on this path: nothing to round
+                if repr(o.value.f.get(fld)) != repr(simplify_num(fn_atom("round", RF.sym(sym), nd))):
+                    probs.append(f"field {fld} comes out as {o.value.f.get(fld)}; float fields are rounded to ndigits as well")
+            if (o.value is o.args[0]) != inplace:
+                probs.append(f"inplace={inplace}: {'a copy' if inplace else 'the receiver'} is returned")
+    if probs:
+        rep.fail("R-CASE.round", F, "round_floats(ndigits) on symbolic numbers", f"{len(dict.fromkeys(probs))} deviations; first: {probs[0]}", st, st.func("SVGPath.round_floats"))
     else:
-        rep.fail("R-CASE.round", F, "for cmd, args in parse_svg_path(d): target._add_cmd(cmd, *(round(n, ndigits) for n in args))",
-                 (why if not ok else "super().round_floats no longer called" if not sup else
-                  f"rounding is now conditional ({unparse(guards[0]).splitlines()[0]}): some numbers may stay unrounded"), st, fn)
-    base = st.func("SVGShape.round_floats")
-    t = unparse(base)
-    if "for field in dataclasses.fields(target)" in t and "round(field_value, ndigits)" in t and "isinstance(field_value, float)" in t:
-        rep.ok("R-CASE.round", "svg_types.SVGShape.round_floats", "all dataclass float fields rounded")
-    else:
-        rep.fail("R-CASE.round", "svg_types.SVGShape.round_floats", "for field in dataclasses.fields(target): round(field_value, ndigits)",
-                 "float fields are no longer all rounded", st, base)
+        rep.ok("R-CASE.round", F, f"{n} paths: every argument of M l C a H z and every float field equals round(value, ndigits); letters and order kept", True)
 
 
 _T = "svg_types"
